@@ -142,6 +142,10 @@ def templates(tier, seed):
         tds.append(dict(fam="format", lo=i, hi=min(i + 12, len(FORMAT_CASES))))
     for c in SPECIAL_CMP:
         tds.append(dict(fam="special", expr=c[0], want=c[1]))
+    for i in range(0, len(ROUNDING_FIXED), 8):
+        tds.append(dict(fam="rounding", fixed=[i, min(i + 8, len(ROUNDING_FIXED))], gseed=None))
+    for g in range(12 if tier == "quick" else 120):
+        tds.append(dict(fam="rounding", fixed=None, gseed=1000 * seed + g))
     for c in CLOSE_CMP:
         tds.append(dict(fam="special", expr=c[0], want=c[1]))
     for c in NONFINITE:
@@ -251,6 +255,91 @@ CLOSE_CMP = [("eq(0.1234, 0.1232)", "0"), ("ne(0.1234, 0.1232)", "1"), ("eq(1 / 
              ("in(0.1234, 0.1232, 0.1233)", "0"), ("if(0.0004, 1, 2)", "1"), ("not(0.0004)", "0"), ("0.0004 and 1", "1"), ("0.0004 or 0", "1"), ("xor(0.0004, 0)", "1")]
 RANDOM_VARIANTS = ["same-twice", "same-twice-text", "same-thrice", "reuse-attr-override", "reuse-attr-override2", "loop-count-random", "loop-count-random3", "for-data-random", "while-random", "geom", "text", "circle-r", "var", "if", "comment", "relpos", "g-attr", "two-in-one", "loop-body", "reuse-attr",
                    "randint", "randint-same", "randint-frac", "randint-neg", "random-in-expr", "randint-in-cond"]
+
+
+# ---------------------------------------------------------------- single-precision reference evaluator
+# Every operator and every function below is "the conventional formula, each step rounded to single precision".  For + - * /
+# and sqrt, computing in double precision and rounding once to single gives the correctly rounded single result (53 >= 2*24+2),
+# so this python evaluator is exact.  Trees are ground; the expected text is the 3-decimal rendering of the reference value.
+def r32(x):
+    import struct as _st
+    try:
+        return _st.unpack(">f", _st.pack(">f", x))[0]
+    except OverflowError:
+        return float("inf") if x > 0 else float("-inf")
+
+
+def ev32(t):
+    import math
+    if not isinstance(t, tuple):
+        return r32(float(t))
+    op, a = t[0], [ev32(x) for x in t[1:]]
+    if op == "+":
+        return r32(a[0] + a[1])
+    if op == "-":
+        return r32(a[0] - a[1])
+    if op == "*":
+        return r32(a[0] * a[1])
+    if op == "/":
+        return r32(a[0] / a[1])
+    if op == "%":
+        m = math.fmod(a[0], a[1])
+        return r32(m + abs(a[1])) if m < 0 else m
+    if op == "neg":
+        return -a[0]
+    if op == "abs":
+        return abs(a[0])
+    if op == "min":
+        return min(a)
+    if op == "max":
+        return max(a)
+    if op == "sqrt":
+        return r32(math.sqrt(a[0]))
+    if op == "mix":     # GLSL: a*(1-c) + b*c
+        return r32(r32(a[0] * r32(1.0 - a[2])) + r32(a[1] * a[2]))
+    if op == "clamp":
+        return min(max(a[0], a[1]), a[2])
+    if op == "floor":
+        return float(math.floor(a[0]))
+    if op == "ceil":
+        return float(math.ceil(a[0]))
+    raise ValueError(op)
+
+
+def txt32(t):
+    if not isinstance(t, tuple):
+        return t
+    op, a = t[0], [txt32(x) for x in t[1:]]
+    if op in "+-*/%":
+        return f"({a[0]} {op} {a[1]})"
+    if op == "neg":
+        return f"(-{a[0]})"
+    return f"{op}({', '.join(a)})"
+
+
+ROUNDING_FIXED = [("+", "16777216", "1"), ("+", ("+", "16777216", "1"), "1"), ("+", "16777216", ("+", "1", "1")), ("-", ("+", "100000000", "1"), "100000000"), ("+", "0.1", "0.2"), ("*", ("/", "1", "3"), "3"),
+                  ("mix", "30000000", "0.5", "1"), ("mix", "0.5", "30000000", "0"), ("mix", "100000000", "3", "1"), ("mix", "3", "100000000", "0"), ("mix", "20000000", "1.25", "1"), ("mix", "1", "3", "0.25"),
+                  ("-", ("+", "33554432", "3"), "33554432"), ("*", ("+", "16777216", "1"), "2"), ("/", ("*", "3000000", "7"), "7"), ("-", ("*", "0.1", "3"), "0.3"), ("*", ("-", "1", "0.9"), "1000"),
+                  ("+", ("-", "0.5", "30000000"), "30000000"), ("+", "30000000", ("-", "0.5", "30000000")), ("%", "16777217", "2"), ("%", "-7.5", "2"), ("%", "7.5", "-2"), ("sqrt", ("*", "16777216", "16777216")),
+                  ("clamp", ("+", "16777216", "1"), "0", "16777217"), ("abs", ("-", "1", ("+", "1", "0.00000001"))), ("*", ("+", "1", "0.00000006"), "16777216"), ("-", ("*", "4097", "4097"), "16785408"),
+                  ("floor", ("+", "8388608", "0.5")), ("ceil", ("-", "0.5", "8388608")), ("max", ("+", "16777216", "1"), "16777216.5"), ("min", ("-", "0", "16777217"), "-16777216")]
+ROUND_LEAVES = ["0.5", "3", "7.25", "0.001", "0.1", "1.25", "10000000", "30000000", "16777216", "100000000", "8388608", "1", "2", "0.3", "12345.678", "999999", "0.0625", "33554432"]
+
+
+def gen_round_tree(rng, depth):
+    if depth == 0 or rng.random() < 0.2:
+        return rng.choice(ROUND_LEAVES)
+    op = rng.choice(["+", "-", "*", "+", "-", "mix", "/", "%", "min", "max", "abs", "neg", "clamp", "mix"])
+    if op == "mix":
+        return ("mix", gen_round_tree(rng, depth - 1), gen_round_tree(rng, depth - 1), rng.choice(["0", "1", "0.5", "0.25", "1", "0"]))
+    if op in ("abs", "neg"):
+        return (op, gen_round_tree(rng, depth - 1))
+    if op == "clamp":
+        lo, hi = sorted([rng.choice(ROUND_LEAVES), rng.choice(ROUND_LEAVES)], key=float)
+        return ("clamp", gen_round_tree(rng, depth - 1), lo, hi)
+    if op in ("/", "%"):
+        return (op, gen_round_tree(rng, depth - 1), rng.choice(["3", "7", "0.5", "2", "10", "0.1"]))
+    return (op, gen_round_tree(rng, depth - 1), gen_round_tree(rng, depth - 1))
 
 
 def count_tag(out, tag):
@@ -446,6 +535,25 @@ def build(td, wrong=False):
             got = Out(r.output).by_tag("rect")[0].get("data-v")
             return [Obl(f"ieee({td['expr']})", PASS if got == td["want"] else FAIL, ground=True, note=f"{got!r} expected {td['want']!r}")]
         return Template(f"special/{td['expr']}", doc, [(3, *V)], check_sp, family="nan-inf-comparisons", role="C14/special", cap=2)
+    if fam == "rounding":
+        if td["fixed"]:
+            trees = ROUNDING_FIXED[td["fixed"][0]:td["fixed"][1]]
+        else:
+            rng, trees = random.Random(td["gseed"]), []
+            while len(trees) < 10:
+                t = gen_round_tree(rng, 3)
+                v = ev32(t)
+                if v == v and abs(v) < 2e9:
+                    trees.append(t)
+        doc = "<svg>" + "".join(f'<rect wh="1" data-v="{{{{{txt32(t)}}}}}"/>' for t in trees) + '<rect xy="[[0]] 0" wh="1"/></svg>'
+
+        def check_rd(r):
+            if r.status != "ok":
+                return [Obl("transform-ok", FAIL, ground=True, note=r.docs[0]["msg"][:200])]
+            els = [e for e in Out(r.output).by_tag("rect") if e.get("data-v") is not None]
+            return [Obl(f"single-precision({txt32(t)})", PASS if e.get("data-v") == fstr_py(ev32(t)) else FAIL, ground=True, note=f"{e.get('data-v')!r} expected {fstr_py(ev32(t))!r}") for t, e in zip(trees, els)]
+        name = f"rounding/fixed{td['fixed'][0]}" if td["fixed"] else f"rounding/gen{td['gseed']}"
+        return Template(name, doc, [(3, *V)], check_rd, family="single-precision-rounding", role="C14/rounding", cap=2)
     if fam == "nonfinite":
         e, want, ctx = td["expr"], td["want"], td["ctx"]
         doc = {"attr": f'<svg><rect xy="[[0]] 0" wh="1" data-v="{{{{{e}}}}}"/></svg>', "var": f'<svg><var q="{{{{{e}}}}}"/><rect xy="[[0]] 0" wh="1" data-v="$q"/></svg>',
